@@ -1,5 +1,6 @@
 import GT.DriverCore
 import GT.Model.Hetero
+import GT.Model.HeteroTrunc
 /-!
 # Driver extension: operations of `gaussian_toolbox/approximate_conditional.py (heteroscedastic classes)`
 `execHetero dst op` returns `true` when it handled the instruction.
@@ -7,7 +8,7 @@ import GT.Model.Hetero
 Instructions (`c` = register of a heteroscedastic conditional, `p` = register of a `GaussianPDF`,
 `x`, `y`, `a`, `om` = registers of arrays, `k` = index of a noise unit):
 
-* `hetero <exp|coshm1> R Dy Dx Da Dk M b A W` — constructor (refusals of `__post_init__`)
+* `hetero <exp|coshm1|heaviside|relu> R Dy Dx Da Dk M b A W` — constructor (refusals of `__post_init__`)
 * `het_linear_layer c x`, `het_cond_mu c x`, `het_cond_cov c x which` (`0`: `invert=False`;
   `1,2,3`: `Sigma`, `Lambda`, `ln_det` of `invert=True`), `het_condition_on_x c x`, `het_set_y c y`
 * `het_noise_diag c p`, `het_integrate_sigma_x c p`, `het_expected_moments c p which`,
@@ -17,6 +18,12 @@ Instructions (`c` = register of a heteroscedastic conditional, `p` = register of
   `het_update_omega c p y k a om`, `het_lb_integrals c p y k a om which` (`0`: second order,
   `compute_fourth_order=False`; `1`, `2`: second / fourth order of `compute_fourth_order=True`),
   `het_omega_loop c p y k a start prev` (the `while_loop` from an arbitrary start)
+
+Step / rectified-linear links (`GT/Model/HeteroTrunc.lean`, class tags `heaviside`, `relu`):
+`_integrate_noise_diagonal` returns `[R, Dk]`, which `het_noise_diag` dumps.  The step class has
+no `while_loop` on the path of `integrate_log_conditional_y`, so a single-component `p_x` is
+broadcast over `N > 1` observations (`pairYP`); its `k_func` / `_lower_bound_integrals` are `pass`
+(`None`, dumped as the empty array; everything that unpacks the `None` is a `TypeError`).
 -/
 namespace GT.Driver
 open GT
@@ -25,7 +32,13 @@ def hetOpsOf (name : String) : Option (HLinkOps F) :=
   match name with
   | "exp" => some expOps
   | "coshm1" => some coshM1Ops
+  | "heaviside" => some heavisideOps
+  | "relu" => some reluOps
   | _ => none
+
+/-- the classes of `GT/Model/HeteroTrunc.lean` -/
+def isTruncLink (ops : HLinkOps F) : Bool := ops.name == "heaviside" || ops.name == "relu"
+def isHeaviside (ops : HLinkOps F) : Bool := ops.name == "heaviside"
 
 structure HetV where
   Dy : Nat
@@ -70,6 +83,23 @@ def pairY {Dy : Nat} (R : Nat) (i : Nat) : M (Arr R (Vec Dy F)) := do
   let ⟨N, ys⟩ ← getPointsH i Dy
   if h : N = R then pure (h ▸ ys)
   else if h1 : N = 1 then pure (tab fun _ => ys (h1 ▸ (0 : Fin 1)))
+  else refuse "shape-error"
+
+/-- a single-component density used for each of `N` observations (einsum broadcasting of the
+leading axis of length one) -/
+def replicatePx {Dx : Nat} (N : Nat) (p : PdfV 1 Dx F) : PdfV N Dx F :=
+  ⟨p.diag, tab fun _ => p.Lambda 0, tab fun _ => p.nu 0, tab fun _ => p.lnBeta 0, tab fun _ => p.Sigma 0,
+   tab fun _ => p.lnDetSigma 0, tab fun _ => p.mu 0, tab fun _ => p.lnZ 0⟩
+
+/-- `pairY` together with `p_x`: for the step link `R = 1` is paired with every one of `N > 1`
+observations (the broadcasting einsums do this; the other classes fail in the `while_loop`). -/
+def pairYP {Dy Dx : Nat} (ops : HLinkOps F) (R : Nat) (p : PdfV R Dx F) (i : Nat) :
+    M (Σ B, PdfV B Dx F × Arr B (Vec Dy F)) := do
+  let ⟨N, ys⟩ ← getPointsH i Dy
+  if h : N = R then pure ⟨R, p, h ▸ ys⟩
+  else if h1 : N = 1 then pure ⟨R, p, tab fun _ => ys (h1 ▸ (0 : Fin 1))⟩
+  else if hR : R = 1 then
+    if isHeaviside ops then pure ⟨N, replicatePx N (hR ▸ p), ys⟩ else refuse "shape-error"
   else refuse "shape-error"
 
 def unitIdx (Dk : Nat) : M (Fin Dk) := do
@@ -126,15 +156,17 @@ def execHetero (dst : Nat) (op : String) : M Bool := do
   | "het_noise_diag" => do
     let h ← getHet (← reg)
     let ⟨R, p⟩ ← getPx (← reg) h.Dx
-    setReg dst (.arr [R * h.Dk] (d1 (h.ops.integrateNoiseDiagonal be h.c p)))
+    -- exp / cosh-1: the flat `[R*Dk]` result of `integrate()`; step / rectified-linear: `[R, Dk]` (same order)
+    if isTruncLink h.ops then
+      setReg dst (.arr [R, h.Dk] (d1 (h.ops.integrateNoiseDiagonal be h.c p)))
+    else
+      setReg dst (.arr [R * h.Dk] (d1 (h.ops.integrateNoiseDiagonal be h.c p)))
     pure true
   | "het_integrate_sigma_x" | "het_expected_moments" | "het_joint" | "het_marginal" | "het_conditional" => do
     let h ← getHet (← reg)
     let ⟨R, p⟩ ← getPx (← reg) h.Dx
-    -- `einsum("ab,b->ab", A_k, D_int)` with `D_int` of length `R*Dk`
-    if R ≠ 1 ∧ h.Dk ≠ 1 then refuse "shape-error"
     match op with
-    | "het_integrate_sigma_x" => setReg dst (.arr [1, h.Dy, h.Dy] (d3 (h.c.integrateSigmaX h.ops be p)))
+    | "het_integrate_sigma_x" => setReg dst (.arr [R, h.Dy, h.Dy] (d3 (h.c.integrateSigmaX h.ops be p)))
     | "het_expected_moments" =>
       let which ← lp nat
       let (mu, S) := h.c.getExpectedMoments h.ops be p
@@ -154,14 +186,14 @@ def execHetero (dst : Nat) (op : String) : M Bool := do
   | "het_log_cond_y" => do
     let h ← getHet (← reg)
     let ⟨R, p⟩ ← getPx (← reg) h.Dx
-    let y ← pairY (Dy := h.Dy) R (← reg)
-    setReg dst (.arr [R] (d1 (h.c.integrateLogConditionalY h.ops be p y)))
+    let ⟨B, p, y⟩ ← pairYP (Dy := h.Dy) h.ops R p (← reg)
+    setReg dst (.arr [B] (d1 (h.c.integrateLogConditionalY h.ops be p y)))
     pure true
   | "het_lb_quadratic" => do
     let h ← getHet (← reg)
     let ⟨R, p⟩ ← getPx (← reg) h.Dx
-    let y ← pairY (Dy := h.Dy) R (← reg)
-    setReg dst (.arr [1, R] (d1 (h.c.getLbQuadraticTerm h.ops be p y)))
+    let ⟨B, p, y⟩ ← pairYP (Dy := h.Dy) h.ops R p (← reg)
+    setReg dst (.arr [1, B] (d1 (h.c.getLbQuadraticTerm h.ops be p y)))
     pure true
   | "het_lb_log_det" => do
     let h ← getHet (← reg)
@@ -178,6 +210,10 @@ def execHetero (dst : Nat) (op : String) : M Bool := do
     let h ← getHet (← reg)
     let ⟨R, p⟩ ← getPx (← reg) h.Dx
     let k ← unitIdx h.Dk
+    -- `pass`: returns `None` whatever the arguments are
+    if isHeaviside h.ops then
+      setReg dst (.arr [0] #[])
+      return true
     let om ← getVec (← reg) R
     setReg dst (.arr [R] (d1 (h.ops.kFunc be p (h.c.W k) om)))
     pure true
@@ -187,6 +223,8 @@ def execHetero (dst : Nat) (op : String) : M Bool := do
     let y ← pairY (Dy := h.Dy) R (← reg)
     let k ← unitIdx h.Dk
     let a ← getVec (← reg) h.Dy
+    -- the `while_loop` traces `_update_omega_star`, which unpacks the `None` of `_lower_bound_integrals`
+    if isHeaviside h.ops then refuse "shape-error"
     setReg dst (.arr [R] (d1 (getOmegaStar h.ops be h.c p y (h.c.W k) a)))
     pure true
   | "het_update_omega" => do
@@ -196,11 +234,20 @@ def execHetero (dst : Nat) (op : String) : M Bool := do
     let k ← unitIdx h.Dk
     let a ← getVec (← reg) h.Dy
     let om ← getVec (← reg) R
+    if isHeaviside h.ops then refuse "shape-error"   -- unpacks `None`
     setReg dst (.arr [R] (d1 (h.ops.updateOmegaStar be h.c p y (h.c.W k) a om)))
     pure true
   | "het_lb_integrals" => do
     let h ← getHet (← reg)
     let ⟨R, p⟩ ← getPx (← reg) h.Dx
+    if isHeaviside h.ops then
+      -- `pass`: `None` whatever the arguments are; `None[which - 1]` is a `TypeError`
+      let _ ← reg; let _ ← unitIdx h.Dk; let _ ← reg; let _ ← reg
+      let which ← lp nat
+      if which = 0 then
+        setReg dst (.arr [0] #[])
+        return true
+      else refuse "shape-error"
     let y ← pairY (Dy := h.Dy) R (← reg)
     let k ← unitIdx h.Dk
     let a ← getVec (← reg) h.Dy
@@ -220,6 +267,7 @@ def execHetero (dst : Nat) (op : String) : M Bool := do
     let a ← getVec (← reg) h.Dy
     let start ← getVec (← reg) R
     let prev ← getVec (← reg) R
+    if isHeaviside h.ops then refuse "shape-error"   -- the traced body unpacks `None`
     setReg dst (.arr [R] (d1 (omegaStarFrom h.ops be h.c p y (h.c.W k) a start prev)))
     pure true
   | _ => pure false
